@@ -433,7 +433,7 @@ def run_batch(prop, tier, verif_seed, n_runs=None, workers=None, budget_s=None, 
         print(f"KNOWN-FINDING: property={prop} {k['what']} (hit {n}x this run)")
     for path, fv in new_reports:
         print(f"VIOLATION property={prop} replay={path}")
-        print(f"  clause={fv['clause']} sig={fv.get('sig')} detail={str(fv.get('detail'))[:600]}")
+        print(f"  clause={fv['clause']} sig={fv.get('sig')} detail={str(fv.get("detail"))[:400]}")
 
     # evidence
     nontrivial = len(sigs)
@@ -474,11 +474,11 @@ def run_batch(prop, tier, verif_seed, n_runs=None, workers=None, budget_s=None, 
     print(f"{prop} {tier}: runs={executed}/{n_runs} wall={wall:.1f}s distinct_nontrivial={nontrivial} "
           f"faults={sum(faults.values())} known_hits={sum(n for _, n in known_hits.values())} "
           f"violations={len(new_reports)} recheck={det['matched']}/{det['rechecked']}")
+    for h in harness_faults[:5]:
+        print("HARNESS-FAULT:", h, file=sys.stderr)
     if new_reports:
         return 1
     if harness_faults:
-        for h in harness_faults[:5]:
-            print("HARNESS-FAULT:", h, file=sys.stderr)
         return 2
     min_runs = max(1, int(n_runs * plan.get("min_fraction", 0.2)))
     if executed < min_runs:
